@@ -32,6 +32,26 @@ class GlexIndexOpaque(Contract):
     def apply(self, ex, args, kw, node):
         if args:
             raise U("glexindex with positional arguments", node)
+        if getattr(ex, "index_as_matrix", False):
+            # (for callers that go on to USE the index array) ASSUMED: an n x dimensions integer matrix of pairwise different,
+            # storable (non-negative, bounded) rows - decided by the bounded-exhaustive check of glexindex
+            import z3 as _z3
+            from engine.polymodel import ExpMat, Region, dt_int, has_duplicate_rows
+            from engine.logic import I, Mono
+            from contracts.construct import keyok
+            ctx = ex.ctx
+            D = kw.get("dimensions")
+            n = ctx.int("n_indices")
+            rf = ctx.func("index_row", I, Mono)
+            ctx.assume(n >= 0)
+            m = ExpMat(n, D, lambda t: rf(t), Region("fresh"), dt_int)
+            ctx.assume(ctx.forall_range(0, n, lambda t: keyok(rf(t), D)))
+            ctx.assume(_z3.Not(has_duplicate_rows(ctx, m)))
+            m.index_kw = dict(kw)
+            hook = getattr(ex, "hooks", {}).get("after_glexindex") if isinstance(getattr(ex, "hooks", None), dict) else None
+            if hook:
+                hook(ex, m)
+            return m
         return IndexResult(dict(kw))
 
 
@@ -71,4 +91,145 @@ class Bindex(Contract):
         raise U("bindex as a callee", node)
 
 
-CONTRACTS = [GlexIndexOpaque(), Bindex()]
+class UnitRows:
+    """numpy.eye(n, dtype=int): n rows, row t being the t-th unit vector of length n"""
+
+    def __init__(self, n):
+        self.n = n
+
+    def sx_seq(self, ex):
+        from engine.polymodel import Arr, Region, prepend, shp0, first0, dt_int
+        n = self.n
+        return V.Seq(n, lambda t: Arr(prepend(n, shp0), lambda i: z3.If(first0(i) == t, z3.RealVal(1), z3.RealVal(0)), "real", dt_int, Region("fresh")))
+
+    def sx_iter(self, ex):
+        return None
+
+    def sx_len(self, ex):
+        return self.n
+
+
+class TokArray:
+    """numpy.array(<opaque user argument>, dtype=int): the same numbers as an integer array"""
+
+    def __init__(self, tok):
+        self.array_of = tok
+
+
+def install_axioms(reg):
+    prev_array = reg.fn["numpy.array"]
+
+    @reg.axiom("numpy.array")
+    def array(ex, args, kw, node):
+        if len(args) == 1 and isinstance(args[0], Tok) and set(kw) <= {"dtype"}:
+            return TokArray(args[0])
+        return prev_array(ex, args, kw, node)
+
+    @reg.axiom("numpy.eye")
+    def eye(ex, args, kw, node):
+        if len(args) == 1 and set(kw) <= {"dtype"} and isinstance(args[0], z3.ArithRef):
+            return UnitRows(args[0])
+        raise U("numpy.eye in this form", node)
+
+    @reg.axiom("numpy.ndarray.__setitem__")
+    def nd_setitem(ex, args, kw, node):
+        from engine.polymodel import Poly, KeyTok, ValuesView
+        p, key, value = args
+        if isinstance(p, Poly) and isinstance(key, KeyTok) and key.poly is p:
+            return ValuesView(p).sx_setitem(ex, key, value, node)     # field assignment on the raw array
+        raise U("ndarray.__setitem__ in this form", node)
+
+
+class Monomial(Contract):
+    """numpoly.monomial(start, stop, dimensions=<names>, ...): one array element per row of glexindex(start, stop, dimensions=len(names),
+    graded, reverse, cross_truncation) - all parameters forwarded - namely the monomial with that exponent row: the polynomial has exactly
+    those rows, the given names, shape (n,), and coefficient column t is the t-th unit vector (so element k is 1 * names ** row_k and
+    nothing else); every coefficient is written (C12)."""
+    name, func, relpath, properties = "numpoly.monomial", "monomial", "numpoly/construct/monomial.py", ("C18", "C12")
+    positional = ("start", "stop", "dimensions", "cross_truncation", "graded", "reverse", "allocation")
+    assumptions = ("assumed contract of glexindex (an n x dimensions matrix of pairwise different storable rows; bounded-exhaustive check)",
+                   "dimensions given as a tuple of names or as one name (an integer / None reads the sizes of start and stop: bounded); "
+                   "at least one index is generated (n >= 1: an empty index array makes ndpoly create a constant term instead)")
+
+    def _loops(self):
+        from engine.sx import LoopSpec
+        from engine.polymodel import prepend, shp0, first0
+
+        def inv(ex, env, k):
+            p = env.get("poly")
+            from engine.polymodel import Poly
+            if not isinstance(p, Poly):
+                return [("polynomial_allocated", z3.BoolVal(False))]
+            n = p.N
+            return [("columns_written_so_far_are_unit_vectors", ex.ctx.forall_range(0, k, lambda t: ex.ctx.forall_idx(
+                lambda i: z3.And(p.init(t, i), p.C(t, i) == z3.If(first0(i) == t, z3.RealVal(1), z3.RealVal(0))), p.shape)))]
+
+        def havoc(ex, env, k):
+            from engine.logic import I, Idx, R, B
+            p = env["poly"]
+            cf, inf = ex.ctx.func("C_h", I, Idx, R), ex.ctx.func("init_h", I, Idx, B)
+            p._C = lambda t, i: cf(t, i)
+            p._init = lambda t, i: inf(t, i)
+        return {1: LoopSpec(inv, havoc, modifies=("coeff", "key"))}
+
+    def cases(self):
+        from engine.polymodel import NamesV, Names, nlen, shape_axioms, mono_axioms, names_distinct, index_axioms
+        for kind in ("names", "one_name"):
+            def make_env(ex, kind=kind):
+                from engine.logic import Name
+                from contracts.construct import eok_axioms
+                from engine.sortmodel import order_axioms
+                ctx = ex.ctx
+                for a in shape_axioms(ctx) + mono_axioms(ctx) + order_axioms(ctx) + eok_axioms() + index_axioms(ctx):
+                    ctx.assume(a)
+                ex.index_as_matrix = True
+                ex.toks = {p: Tok(p) for p in ("start", "stop", "cross_truncation", "graded", "reverse")}
+                ex.alloc = None
+                if kind == "names":
+                    ex.nm = ctx.const("names_arg", Names)
+                    ctx.assume(z3.And(nlen(ex.nm) >= 1, names_distinct(ctx, ex.nm)))
+                    dims = NamesV(ex.nm)
+                else:
+                    ex.name = ctx.const("name_arg", Name)
+                    dims = ex.name
+                # precondition of this contract: the index array is not empty (hook: fact added where glexindex returns)
+                ex.hooks = {"after_glexindex": lambda ex_, m: ex_.ctx.assume(m.n >= 1)}
+                env = dict(ex.toks)
+                env.update(dimensions=dims, allocation=None)
+                return env
+
+            def check(out, kind=kind):
+                from engine.polymodel import Poly, ExpMat, nat, prepend, shp0, first0
+                ex, ctx = out.ex, out.ctx
+                ex.oblige(f"raises.nothing[{out.exc}]" if out.kind == "raise" else "raises.nothing", z3.BoolVal(out.kind == "return"), "post")
+                if out.kind != "return":
+                    return
+                r = out.value
+                src = getattr(r, "built_from_exponents", None)
+                ok = isinstance(r, Poly) and isinstance(src, ExpMat) and getattr(src, "index_kw", None) is not None
+                ex.oblige("post.rows_are_the_index_array_of_glexindex", z3.BoolVal(ok), "post")
+                if not ok:
+                    return
+                kwi = src.index_kw
+                for p_, tok in ex.toks.items():
+                    got = kwi.get(p_)
+                    got = getattr(got, "array_of", got)
+                    ex.oblige(f"post.parameter_forwarded[{p_}]", z3.BoolVal(got is tok), "post")
+                D = kwi.get("dimensions")
+                if kind == "names":
+                    ex.oblige("post.dimensions_is_the_number_of_names", D == nlen(ex.nm) if isinstance(D, z3.ExprRef) else z3.BoolVal(False), "post")
+                    ex.oblige("post.names_are_the_given_names", r.names == ex.nm, "post")
+                else:
+                    ex.oblige("post.dimensions_is_one", z3.BoolVal(D == 1) if isinstance(D, int) else D == 1, "post")
+                    ex.oblige("post.the_single_name_is_the_given_one", z3.And(nlen(r.names) == 1, nat(r.names, 0) == ex.name), "post")
+                ex.oblige("post.one_element_per_index", z3.And(r.N == src.n, r.shape == prepend(src.n, shp0)), "post")
+                ex.oblige("post.element_k_is_the_monomial_with_row_k", ctx.forall_range(0, r.N, lambda t: ctx.forall_idx(
+                    lambda i: z3.And(r.init(t, i), r.C(t, i) == z3.If(first0(i) == t, z3.RealVal(1), z3.RealVal(0))), r.shape)), "post",
+                    note="coefficient column t is the t-th unit vector: element k has the single term 1 * x ** row_k; nothing unwritten")
+            yield Case(f"dimensions={kind}", make_env, check, loops=self._loops())
+
+    def apply(self, ex, args, kw, node):
+        raise U("monomial as a callee", node)
+
+
+CONTRACTS = [GlexIndexOpaque(), Bindex(), Monomial()]
